@@ -60,13 +60,14 @@ Definition entry_charseq (a : list str) : list str :=
   | _ => [lit "?args"]
   end.
 
-(** substring: <array?> <off> <len or empty> field* ; every field is a single piece *)
+(** substring: <0 scalar | 1 array | 2 positional> <off> <len or empty> field* ; every field is a single piece *)
 Definition entry_substr (a : list str) : list str :=
   match a with
   | arr :: off :: len :: fs =>
-    let x := {| fields := map (fun f => [f]) fs; from_array := dec_bool arr |} in
+    let pos := str_eqb arr (lit "2") in
+    let x := {| fields := map (fun f => [f]) fs; from_array := negb (str_eqb arr (lit "0")) |} in
     let len := dec_opt len in
-    triple show_fields (substring_orig x (dec_int off) len) (substring x (dec_int off) len)
+    triple show_fields (substring_orig x (dec_int off) len) (substring x pos (dec_int off) len)
            (known_substring len)
   | _ => [lit "?args"]
   end.
